@@ -6,11 +6,30 @@ from props import c01
 LEVEL = "model_checking"
 RULE = c01.RULE + (" For C03 the value returned by every fibre_scheduler_next is compared with the specification's "
                    "NextWakeup (now / earliest due / unbounded) and TLC checks NoOversleep on every state; the interrupt "
-                   "placements inside fibre_scheduler_next are explored on FibreIrq.tla (irq discipline).")
+                   "placements inside fibre_scheduler_next are explored on FibreIrq.tla (irq discipline). Consumer side: "
+                   "MainLoop.tla (one action per iteration of fibre_scheduler_main_loop, NoOversleep) and the real "
+                   "fibre_posix.c loop run against a scripted scheduler and a mock clock, validated by TraceMainLoop.tla.")
 ASSUMPTIONS = c01.ASSUMPTIONS
 
 
+def run_mainloop(run):
+    """consumer side: the POSIX main loop's own arithmetic (MainLoop.tla), bound to fibre_posix.c by a scripted scheduler"""
+    res = require_ok(run, tlc(run, "MainLoop", "MainLoop_mc.cfg", tag="mainloop-mc", constants_note={"Cap": 6, "MaxD": 9, "MaxW": 4}), "MainLoop MC")
+    if res["violated"]:
+        raise Infra("MainLoop specification violates %s" % res["violated"])
+    account_mc(run, res, ["Iter"])
+    pre = tlc(run, "MainLoop", "MainLoop_prefix.cfg", tag="mainloop-prefix", coverage=False)
+    if pre["violated"] != "NoOversleep":
+        raise Infra("vacuity check failed: the pre-fix cap rule should violate NoOversleep (got %s)" % pre["violated"])
+    run.tlc_runs[-1]["expected_violation"] = "NoOversleep"
+    exe = build_driver(run, "mainloop_drv", "mainloop_drv.c", ["librfn/posix/fibre_posix.c", "librfn/util.c"])
+    tr = exec_script(run, exe, [], "Run %d %d\n" % (run.seed, 20000 if run.thorough() else 2000), run.path("mainloop.ndjson"), "main-loop")
+    check_trace(run, "main-loop", "TraceMainLoop", "TraceMainLoop.cfg", tr)
+    count_event_cases(run, tr)
+
+
 def run(run):
+    run_mainloop(run)
     exe = c01.build(run)
     c01.run_seq(run, exe, c01.PLACEMENTS[:3])
     try:
